@@ -6,7 +6,8 @@
    Event records (props/C34.py, real mitmproxy.http.Request / Response):
      [k |-> "assign",    view, rep |-> BOOLEAN,          \* rep: every pair is representable in the view's wire format
                          pairs |-> <<pairs>>, cls |-> <<<<key class, value class>>>>,   \* abstract classes (signature only)
-                         exc |-> "" | class name, read |-> <<pairs>>]                   \* the view read back after the assignment
+                         exc |-> "" | class name, read |-> <<pairs>>,                   \* the view read back after the assignment
+                         over |-> "" | class of the existing message the assignment was made over (witness only)]
      [k |-> "mutate",    view, op |-> "add" | "del" | "setitem", rep, key, val, exc, read]   \* through the MultiDictView
      [k |-> "writeback", view, origin |-> "assigned" | "wire", wcls |-> class of the message (signature only), rep,
                          exc, before, after |-> [other |-> id, meaning |-> <<<<ids>>>>],
@@ -51,6 +52,7 @@ AssignStep(m, ev) ==
            \cup (IF ev.rep /\ \E i, j \in 1..Len(ev.pairs) : i < j /\ ev.pairs[i][1] = ev.pairs[j][1] /\ ev.pairs[i][1] # 0
                  THEN {"dup_key"} ELSE {})
            \cup (IF ev.rep /\ Known(m, ev.view) THEN {"reassign"} ELSE {})
+           \cup (IF ev.rep /\ Get(ev, "over", "") # "" THEN {"assign_over_existing", "over_" \o ev.over} ELSE {})
   IN [m EXCEPT !.bad = bad, !.cur = SetCur(m, ev.view, ev.read), !.wit = @ \cup w]
 
 MutateStep(m, ev) ==
